@@ -1830,3 +1830,100 @@ package gomatrixserverlib
 //@   loop 1: invariant !called(checkAllowedByAuthEvents) ==> (len(eventsToVerify) >= 1 && (forall id string :: !(id in verifiedEvents)))
 //@   loop 2: invariant 0 <= idx(2) && idx(2) <= len(curr.AuthEventIDs())
 //@   loop 3: invariant 0 <= idx(3) && idx(3) <= len(newEvents)
+
+// ---------------------------------------------------------------- C15: handshake handlers
+
+//@ func HandleSendJoin
+//@   property C15
+//@   nosafety
+//@   results resp, err
+//@   ensures is-a-join-for-its-own-sender: err == nil ==> (ret(NewEventFromUntrustedJSON, 1) == nil && ret(NewEventFromUntrustedJSON, 0).StateKey() != nil && !ret(NewEventFromUntrustedJSON, 0).StateKeyEquals("") && ret(NewEventFromUntrustedJSON, 0).StateKeyEquals(string(ret(NewEventFromUntrustedJSON, 0).SenderID())) && ret(NewEventFromUntrustedJSON, 0).Membership()[1] == nil && ret(NewEventFromUntrustedJSON, 0).Membership()[0] == "join")
+//@   ensures room-and-event-id-match-the-request: err == nil ==> (ret(NewEventFromUntrustedJSON, 0).RoomID().raw == input.RoomID.raw && ret(NewEventFromUntrustedJSON, 0).EventID() == input.EventID)
+//@   ensures sender-belongs-to-the-requesting-server: err == nil ==> (input.UserIDQuerier(input.RoomID, ret(NewEventFromUntrustedJSON, 0).SenderID())[1] == nil && input.UserIDQuerier(input.RoomID, ret(NewEventFromUntrustedJSON, 0).SenderID())[0].domain == string(input.RequestOrigin))
+//@   ensures signature-checked: err == nil ==> (called(VerifyJSONs) && ret(VerifyJSONs, 1) == nil && ret(VerifyJSONs, 0)[0].Error == nil)
+//@   ensures not-banned: err == nil ==> (input.MembershipQuerier.CurrentMembership(input.Context, input.RoomID, ret(NewEventFromUntrustedJSON, 0).SenderID())[1] == nil && input.MembershipQuerier.CurrentMembership(input.Context, input.RoomID, ret(NewEventFromUntrustedJSON, 0).SenderID())[0] != "ban")
+//@   ensures counter-signed: err == nil ==> (resp != nil && resp.JoinEvent == ret(NewEventFromUntrustedJSON, 0).Sign(string(input.LocalServerName), input.KeyID, input.PrivateKey) && (resp.AlreadyJoined <==> input.MembershipQuerier.CurrentMembership(input.Context, input.RoomID, ret(NewEventFromUntrustedJSON, 0).SenderID())[0] == "join"))
+//@   ensures authorising-user-is-local: (err == nil && called(NewUserID)) ==> (ret(NewUserID, 1) == nil && ret(NewUserID, 0).domain == string(input.LocalServerName))
+//@   ensures authorising-user-always-checked: (err == nil && jmerge(zero("MemberContent"), ret(NewEventFromUntrustedJSON, 0).Content()).AuthorisedVia != "") ==> called(NewUserID)
+//@   calls NewUserID@root the-authorising-user-of-the-join: id == jmerge(zero("MemberContent"), ret(NewEventFromUntrustedJSON, 0).Content()).AuthorisedVia && id != ""
+//@   calls VerifyJSONs@root the-senders-server-signed-the-redacted-event: len(requests) == 1 && requests[0].Message == ret(RedactEventJSON, 0) && requests[0].AtTS == ret(NewEventFromUntrustedJSON, 0).OriginServerTS() && requests[0].ValidityCheckingFunc == StrictValiditySignatureCheck && (root_input.RoomVersion != "org.matrix.msc4014" ==> string(requests[0].ServerName) == string(root_input.RequestOrigin))
+//@   calls RedactEventJSON@root of-the-join-event: eventJSON == ret(NewEventFromUntrustedJSON, 0).JSON()
+
+//@ func abortIfAlreadyJoined
+//@   property C15
+//@   nosafety
+//@   requires membershipQuerier != nil
+//@   ensures refuses-joined-users: result == nil ==> (membershipQuerier.CurrentMembership(ctx, roomID, invitedUser)[1] == nil && membershipQuerier.CurrentMembership(ctx, roomID, invitedUser)[0] != "join")
+
+// stripped-state helpers: outside the property (what the invite carries in unsigned), abstract
+//@ func GenerateStrippedState
+//@   trusted
+//@ func setUnsignedFieldForInvite
+//@   trusted
+//@ func createInviteLogger
+//@   trusted
+
+//@ func handleInviteCommonChecks
+//@   property C15
+//@   nosafety
+//@   requires input.RoomQuerier != nil && input.MembershipQuerier != nil && event != nil
+//@   ensures returns-the-given-event: result[1] == nil ==> result[0] == event
+//@   ensures known-room-target-not-joined: (result[1] == nil && input.RoomQuerier.IsKnownRoom(ctx, input.RoomID)[1] == nil && input.RoomQuerier.IsKnownRoom(ctx, input.RoomID)[0]) ==> (called(abortIfAlreadyJoined) && ret(abortIfAlreadyJoined) == nil)
+//@   ensures room-lookup-succeeded: result[1] == nil ==> input.RoomQuerier.IsKnownRoom(ctx, input.RoomID)[1] == nil
+//@   calls abortIfAlreadyJoined@root for-the-invited-user: roomID == root_input.RoomID && invitedUser == root_input.InvitedSenderID && membershipQuerier == root_input.MembershipQuerier
+
+//@ func HandleInvite
+//@   property C15
+//@   nosafety
+//@   ensures room-matches-the-request: result[1] == nil ==> input.InviteEvent.RoomID().raw == input.RoomID.raw
+//@   ensures signature-checked: result[1] == nil ==> (called(VerifyJSONs) && ret(VerifyJSONs, 1) == nil && ret(VerifyJSONs, 0)[0].Error == nil)
+//@   ensures common-checks-on-the-counter-signed-event: result[1] == nil ==> (called(handleInviteCommonChecks) && ret(handleInviteCommonChecks, 1) == nil && result[0] == ret(handleInviteCommonChecks, 0))
+//@   calls VerifyJSONs@root the-senders-server-signed-the-redacted-event: len(requests) == 1 && requests[0].Message == ret(RedactEventJSON, 0) && requests[0].AtTS == root_input.InviteEvent.OriginServerTS() && requests[0].ValidityCheckingFunc == StrictValiditySignatureCheck && root_input.UserIDQuerier(root_input.RoomID, root_input.InviteEvent.SenderID())[1] == nil && string(requests[0].ServerName) == root_input.UserIDQuerier(root_input.RoomID, root_input.InviteEvent.SenderID())[0].domain
+//@   calls RedactEventJSON@root of-the-invite-event: eventJSON == root_input.InviteEvent.JSON() && ref(recv) == verImplRef(string(root_input.RoomVersion))
+//@   calls handleInviteCommonChecks@root on-the-counter-signed-event: event == root_input.InviteEvent.Sign(root_input.InvitedUser.domain, root_input.KeyID, root_input.PrivateKey) && input == root_input
+
+//@ func roomVersionSupported
+//@   property C15, C18:safety
+//@   ensures exact: result <==> (exists i int :: 0 <= i && i < len(supportedVersions) && supportedVersions[i] == roomVersion)
+//@   loop 1: invariant 0 <= idx(1) && idx(1) <= len(supportedVersions) && (forall i int :: 0 <= i && i < idx(1) ==> supportedVersions[i] != roomVersion)
+
+// event-reference conversion for the template of v1/v2 rooms and ProtoEvent.SetContent: outside the property
+//@ func toEventReference
+//@   trusted
+//@ func (*ProtoEvent).SetContent
+//@   trusted
+//@   assigns *pe
+//@ func NewAuthEvents
+//@   trusted
+//@   assigns nothing
+
+//@ func HandleMakeJoin
+//@   property C15
+//@   nosafety
+//@   purecallbacks
+//@   results resp, err
+//@   requires verKnown(string(input.RoomVersion))
+//@   ensures remote-supports-the-version: err == nil ==> (exists i int :: 0 <= i && i < len(input.RemoteVersions) && input.RemoteVersions[i] == input.RoomVersion)
+//@   ensures user-belongs-to-the-requesting-server: err == nil ==> input.UserID.domain == string(input.RequestOrigin)
+//@   ensures local-server-is-in-the-room: err == nil ==> input.LocalServerInRoom
+//@   ensures restricted-join-authorised: err == nil ==> (called(CheckRestrictedJoin) && ret(CheckRestrictedJoin, 1) == nil)
+//@   ensures template-passes-the-auth-rules: err == nil ==> (called(Allowed) && ret(Allowed) == nil)
+//@   calls CheckRestrictedJoin@root for-this-room-and-user: localServerName == root_input.LocalServerName && roomQuerier == root_input.RoomQuerier && roomID == root_input.RoomID && senderID == root_input.SenderID && ref(recv) == verImplRef(string(root_input.RoomVersion))
+//@   calls Allowed@root the-built-template-against-its-state: userIDQuerier == root_input.UserIDQuerier && authEvents.(*AuthEvents) == ret(NewAuthEvents, 0)
+
+//@ func HandleMakeLeave
+//@   property C15
+//@   nosafety
+//@   purecallbacks
+//@   results resp, err
+//@   ensures user-belongs-to-the-requesting-server: err == nil ==> input.UserID.domain == string(input.RequestOrigin)
+//@   ensures local-server-is-in-the-room: err == nil ==> input.LocalServerInRoom
+//@   ensures template-passes-the-auth-rules: err == nil ==> (called(Allowed) && ret(Allowed) == nil)
+//@   calls Allowed@root the-built-template-against-its-state: userIDQuerier == root_input.UserIDQuerier && authEvents.(*AuthEvents) == ret(NewAuthEvents, 0)
+
+//@ func checkRestrictedJoin
+//@   property C15
+//@   nosafety
+//@   requires roomQuerier != nil
+//@   ensures authorising-user-may-invite: (result[1] == nil && result[0] != "" && !privilegedCreators) ==> (called(PowerLevels) && ret(PowerLevels, 1) == nil && UL(*ret(PowerLevels, 0), result[0]) >= ret(PowerLevels, 0).Invite)
+//@   ensures authorising-user-only-when-restricted: (result[1] == nil && result[0] != "") ==> (called(InvitePending) && !ret(InvitePending, 0) && ret(InvitePending, 1) == nil)
